@@ -13,6 +13,8 @@ use std::sync::Arc;
 pub const STRINGS: &[&str] = &[
     "", "a", " a b ", "héllo", "日本", "a\0b", "🦀", "AbC", "x,y,,z", "\t x \n", "١٢٣", "+5", "-0", "9223372036854775807", "9223372036854775808",
     "-9223372036854775808", "1e5", "inf", "NaN", "0x10", "  12", "12 ", "1_000", "ß", "İ", "ǅ", "\u{85}x\u{a0}", ",", "aaa", "aa", "e\u{301}", "\u{2028}", "1.5", "-1.5e-3", ".5", "5.", "\u{fffd}", "a\u{fffd}b\u{fffd}", "\u{feff}x", "\u{ffff}", "\u{10ffff}", "\u{d7ff}\u{e000}", "\u{7f}\u{80}\u{7ff}\u{800}",
+    // long inputs (33, 64, 65, 129, 257, 258, 1000 characters; ASCII, multi-byte, separators, lines)
+    "abcdefghijklmnopqrstuvwxyzABCDEFG", "x,x,x,x,x,x,x,x,x,x,x,x,x,x,x,x,x,x,x,x,x,x,x,x,x,x,x,x,x,x,x,x,", "ééééééééééééééééééééééééééééééééééééééééééééééééééééééééééééééééé", "a🦀a🦀a🦀a🦀a🦀a🦀a🦀a🦀a🦀a🦀a🦀a🦀a🦀a🦀a🦀a🦀a🦀a🦀a🦀a🦀a🦀a🦀a🦀a🦀a🦀a🦀a🦀a🦀a🦀a🦀a🦀a🦀a🦀a🦀a🦀a🦀a🦀a🦀a🦀a🦀a🦀a🦀a🦀a🦀a🦀a🦀a🦀a🦀a🦀a🦀a🦀a🦀a🦀a🦀a🦀a🦀a🦀a🦀a🦀a🦀a🦀a🦀a🦀a🦀b", " word word word word word word word word word word word word word word word word word word word word word word word word word word word word word word word word word word word word word word word word word word word word word word word word word word word \t", "AAAAAAAAAAAAAAAAAAAAAAAAAAAAAAAAAAAAAAAAAAAAAAAAAAAAAAAAAAAAAAAAAAAAAAAAAAAAAAAAAAAAAAAAAAAAAAAAAAAAAAAAAAAAAAAAAAAAAAAAAAAAAAAAAAAAAAAAAAAAAAAAAAAAAAAAAAAAAAAAAAAAAAAAAAAAAAAAAAAAAAAAAAAAAAAAAAAAAAAAAAAAAAAAAAAAAAAAAAAAAAAAAAAAAAAAAAAAAAAAAAAAAAAAAAAAAAAAA", "line\nline\nline\nline\nline\nline\nline\nline\nline\nline\nline\nline\nline\nline\nline\nline\nline\nline\nline\nline\nline\nline\nline\nline\nline\nline\nline\nline\nline\nline\nline\nline\nline\nline\nline\nline\nline\nline\nline\nline\nline\nline\nline\nline\nline\nline\nline\nline\nline\nline\nline\nline\nline\nline\nline\nline\nline\nline\nline\nline\nline\nline\nline\nline\nline\nline\nline\nline\nline\nline\nline\nline\nline\nline\nline\nline\nline\nline\nline\nline\nline\nline\nline\nline\nline\nline\nline\nline\nline\nline\nline\nline\nline\nline\nline\nline\nline\nline\nline\nline\nline\nline\nline\nline\nline\nline\nline\nline\nline\nline\nline\nline\nline\nline\nline\nline\nline\nline\nline\nline\nline\nline\nline\nline\nline\nline\nline\nline\nline\nline\nline\nline\nline\nline\nline\nline\nline\nline\nline\nline\nline\nline\nline\nline\nline\nline\nline\nline\nline\nline\nline\nline\nline\nline\nline\nline\nline\nline\nline\nline\nline\nline\nline\nline\nline\nline\nline\nline\nline\nline\nline\nline\nline\nline\nline\nline\nline\nline\nline\nline\nline\nline\nline\nline\nline\nline\nline\nline\nline\nline\nline\nline\nline\nline\nline\nline\nline\nline\nline\nline\n", "0123456789012345678901234567890123456789012345678901234567890123456789012345678901234567890123456789012345678901234567890123456789012345678901234567890123456789012345678901234567890123456789012345678901234567890123456789012345678901234567890123456789012345678901234567890123456789012345678901234567890123456789012345678901234567890123456789012345678901234567890123456789012345678901234567890123456789012345678901234567890123456789012345678901234567890123456789012345678901234567890123456789012345678901234567890123456789012345678901234567890123456789012345678901234567890123456789012345678901234567890123456789012345678901234567890123456789012345678901234567890123456789012345678901234567890123456789012345678901234567890123456789012345678901234567890123456789012345678901234567890123456789012345678901234567890123456789012345678901234567890123456789012345678901234567890123456789012345678901234567890123456789012345678901234567890123456789012345678901234567890123456789012345678901234567890123456789",
 ];
 
 fn walk(v: &Variable, path: String, funcs: &mut Vec<(String, Arc<Function>)>, consts: &mut Vec<(String, Variable)>) {
